@@ -114,7 +114,12 @@ pub fn exec(toks: &[&str]) -> String {
         }
         ["validity", nb, na, now] => {
             let v = Validity::new(time_of(nb.parse().unwrap()), time_of(na.parse().unwrap()));
-            show_v(v.verify_at(time_of(now.parse().unwrap())))
+            // `<n>+h`: half a second after n (an evaluation instant between two representable times)
+            let at = match now.strip_suffix("+h") {
+                Some(n) => { use chrono::TimeZone; Time::new(chrono::Utc.timestamp_opt(n.parse().unwrap(), 500_000_000).unwrap()) }
+                None => time_of(now.parse().unwrap()),
+            };
+            show_v(v.verify_at(at))
         }
         ["trim", nb1, na1, nb2, na2, now] => {
             let a = Validity::new(time_of(nb1.parse().unwrap()), time_of(na1.parse().unwrap()));
@@ -286,6 +291,7 @@ pub fn generate(ctx: &mut Ctx) {
     let inst: [i64; 12] = [-62135596800, -1, 0, 1, 946684799, 946684800, 946684801, 2524607999, 2524608000, 4102444800, 253402300798, 253402300799];
     for &nb in &inst { for &na in &inst { for &now in &inst {
         ctx.case(&format!("validity {} {} {}", nb, na, now));
+        ctx.case(&format!("validity {} {} {}+h", nb, na, now));
     }}}
     for _ in 0..(if thorough { 200_000 } else { 20_000 }) {
         let p = |rng: &mut Rng| -> i64 { if rng.bool() { *rng.pick(&inst) + rng.below(3) as i64 - 1 } else { rng.range(0, 4_000_000_000) as i64 } };
@@ -293,6 +299,7 @@ pub fn generate(ctx: &mut Ctx) {
         ctx.case(&format!("trim {} {} {} {} {}", v[0], v[1], v[2], v[3], v[4]));
         v.sort();
         ctx.case(&format!("validity {} {} {}", v[0], v[2], v[1]));
+        ctx.case(&format!("validity {} {} {}+h", v[0], v[2], v[1]));
     }
     // serials
     let mut serials: Vec<[u8; 20]> = Vec::new();
